@@ -28,7 +28,7 @@ Inductive xl :=
 | XRecvVal (s p m : Z) | XRecvEmpty (s : Z) | XRecvClosed (s : Z)
 | XTick (k : Z)
 | XCloseSub (s : Z) | XFinishClose (s : Z)
-| XQuiet (lens : list Z) (gor : Z) (exact : bool).
+| XQuiet (lens : list Z) (gor : Z) (mode : Z).   (* 0 plain, 1 after a full Advance, 2 final settled *)
 
 (* observations that are not part of the trace *)
 Record obs := mkObs {
@@ -70,6 +70,12 @@ Definition any_stuck (s0 : st) : bool :=
   || existsb (sub_stuck s0) (seq 0 (nsub s0)).
 Definition any_due (s0 : st) : bool :=
   existsb (fun ps => due s0 (pair s0 (fst ps) (snd ps))) (list_prod (seq 0 (npub s0)) (seq 0 (nsub s0))).
+(* overdue by more than a tick: after an Advance (sleep past every short deadline + 40ms, then wait up to
+   3s for the timers) such a delivery must be gone *)
+Definition overdue (s0 : st) (x : pst) : bool :=
+  match x with PInSel dl => S dl <? now s0 | _ => false end.
+Definition any_overdue (s0 : st) : bool :=
+  existsb (fun ps => overdue s0 (pair s0 (fst ps) (snd ps))) (list_prod (seq 0 (npub s0)) (seq 0 (nsub s0))).
 
 (* a sender that a non-blocking receive on s must have met *)
 Definition has_partner (s0 : st) (s : nat) : bool :=
@@ -123,10 +129,10 @@ Definition xstep (s0 : st) (x : xl) : option st :=
   | XTick k => iter_tick (n k) s0
   | XCloseSub s => step s0 (CloseSub (n s))
   | XFinishClose s => step s0 (FinishClose (n s))
-  | XQuiet lens gor exact =>
+  | XQuiet lens gor mode =>
       if lens_ok s0 0 lens && negb (any_stuck s0) && negb (panicked s0)
-         && (if exact then (pending_count s0 =? n gor) && negb (any_due s0)
-             else pending_count s0 <=? n gor)
+         && (if (mode =? 2)%Z then (pending_count s0 =? n gor) && negb (any_due s0)
+             else (pending_count s0 <=? n gor) && implb (mode =? 1)%Z (negb (any_overdue s0)))
       then Some s0 else None
   end.
 
@@ -174,6 +180,27 @@ Definition zin (x : Z) (l : list Z) : bool := existsb (Z.eqb x) l.
 Definition bad (sm : summ) : summ :=
   mkSumm (m_subs sm) (m_pubs sm) (m_recv sm) (m_tout sm) (m_closed sm) (m_eof sm) (m_time sm) (m_lastgor sm) true.
 
+(* At a marker after a full Advance: for a subscriber with OnTimeout that is not closed, the accepted visited
+   pairs that are overdue by more than a tick and neither received nor called back can only be sitting in
+   its buffer; more of them than the channel holds = a timeout that did not come within the generous bound. *)
+Definition unresolved_overdue (sm : summ) (s : Z) : nat :=
+  match nth_error (m_subs sm) (n s) with
+  | Some (_, f, t, _, oT) =>
+      if oT && negb (existsb (Z.eqb s) (m_closed sm)) then
+        length (filter (fun pp =>
+                  match nth_error (m_pubs sm) pp with
+                  | Some (m, vis, t0) =>
+                      existsb (Z.eqb s) vis && accepts f m && (t0 + t + 1 <? m_time sm)%Z
+                      && negb (existsb (fun x => (fst x =? s)%Z && (snd x =? Z.of_nat pp)%Z) (m_recv sm))
+                      && negb (existsb (fun x => (fst x =? s)%Z && (snd x =? Z.of_nat pp)%Z) (m_tout sm))
+                  | None => false
+                  end) (seq 0 (length (m_pubs sm))))
+      else 0
+  | None => 0
+  end.
+Definition late_timeouts (sm : summ) (lens : list Z) : bool :=
+  existsb (fun i => n (nth i lens 0%Z) <? unresolved_overdue sm (Z.of_nat i)) (seq 0 (length (m_subs sm))).
+
 (* c06 part: a received value was published, visited this subscriber, is accepted by its filter, and is
    new; nothing is received after "closed" was seen.
    c15 part: a timeout is for an accepted visited pair, not earlier than its own deadline, once, and
@@ -213,9 +240,9 @@ Definition summ_step (sm : summ) (x : xl) : summ :=
   | XCloseSub s =>
       mkSumm (m_subs sm) (m_pubs sm) (m_recv sm) (m_tout sm) (s :: m_closed sm) (m_eof sm)
              (m_time sm) (m_lastgor sm) (m_bad sm)
-  | XQuiet _ g _ =>
+  | XQuiet lens g mode =>
       mkSumm (m_subs sm) (m_pubs sm) (m_recv sm) (m_tout sm) (m_closed sm) (m_eof sm)
-             (m_time sm) g (m_bad sm)
+             (m_time sm) g (m_bad sm || ((mode =? 1)%Z && late_timeouts sm lens))
   | _ => sm
   end.
 
